@@ -47,7 +47,8 @@ def gen_sensitive(rng):
                            f'(whenever (= top.clk 1) {e})'])
     if k == 'evalmacro':
         # code that is evaluated from data goes through the same passes in the same order: a macro called there sees its operand as written
-        e = rng.choice(['(+ 1 2)', '(if #t 1 2)', '(do 5)', '(* 2 3)', '(&& 1 2)', '(+ x 1)', '(+ 1 2 x)'])
+        e = rng.choice(['(+ 1 2)', '(if #t 1 2)', '(do 5)', '(* 2 3)', '(&& 1 2)', '(+ x 1)', '(+ 1 2 x)',
+                        '(list (- 10 (* 2 3)))', '(= (> (* 2 3) 7) #t)', '(- (+ 1 2) (first (list (* 2 2))))'])
         return rng.choice([f"(eval '(q8 {e}))", f"(eval '(list (q8 {e}) {e}))", f"(let ([z 1]) (eval '(q8 {e})))", f'(q8 {e})',
                            # data that has been evaluated is still the data it was
                            f"(let ([qd '(when 1 {e})]) (list (eval qd) qd))", f"(let ([qd '(list (unless 0 {e}) {e})]) (list (eval qd) qd (eval qd)))"])
